@@ -1,6 +1,6 @@
 (* ToolsTotal.v — the reading tools (mci_ipm_to_csv, mideu extract) stop with rows or the library's data error (C07). *)
 From Coq Require Import List Arith NArith.
-Require Import CU.model.Prim CU.model.Types CU.model.Codec CU.model.Block CU.model.Vbs CU.model.Iso CU.model.Ipm CU.model.Tools.
+Require Import CU.model.Prim CU.model.Types CU.model.Codec CU.model.Block CU.model.Vbs CU.model.Iso CU.model.Ipm CU.model.Tools CU.model.Csv.
 Require Import CU.proofs.IsoTotal.
 Import ListNotations.
 
@@ -18,6 +18,32 @@ Proof.
   destruct (iread_all B maxlen cfg cd f blocked) as [[ds e]|x| |]; cbn [bind snd fst].
   - destruct e; exact I.
   - destruct x; try contradiction. exact I.
+  - contradiction.
+  - exact I.
+Qed.
+
+(* the same at TEXT level: what mci_ipm_to_csv / mideu extract write (model/Csv.v) *)
+Lemma tt_all_cells : forall row, match all_cells row with Ok _ | Unmodelled => True | _ => False end.
+Proof.
+  induction row as [|[s|] t IH]; cbn [all_cells]; [exact I| |exact I].
+  destruct (all_cells t); cbn [bind]; try exact I; contradiction.
+Qed.
+Lemma tt_all_rows : forall rows, match all_rows rows with Ok _ | Unmodelled => True | _ => False end.
+Proof.
+  induction rows as [|r t IH]; cbn [all_rows]; [exact I|].
+  pose proof (tt_all_cells r) as Hc. destruct (all_cells r); cbn [bind]; try exact I; try contradiction.
+  destruct (all_rows t); cbn [bind]; try exact I; contradiction.
+Qed.
+Lemma c07_csv_tool_total : forall B maxlen cfg cd blocked cols f, 0 < B ->
+  (forall n c, cfg_get cfg n = Some c -> f_len c <> None) ->
+  (forall n c, cfg_get cfg n = Some c -> f_proc c = PDE43 -> f_ptype c <> PTStr -> f_de43 c = D43None) ->
+  tt_benign (ipm_to_csv_text B maxlen cfg cd blocked cols f).
+Proof.
+  intros B maxlen cfg cd blocked cols f HB HL HD. unfold ipm_to_csv_text.
+  pose proof (c07_tools_total B maxlen cfg cd blocked cols f HB HL HD) as H.
+  destruct (ipm_to_rows B maxlen cfg cd blocked cols f) as [rows|x| |]; cbn [bind].
+  - pose proof (tt_all_rows rows) as Hr. destruct (all_rows rows); cbn [bind]; try exact I; contradiction.
+  - exact H.
   - contradiction.
   - exact I.
 Qed.
